@@ -184,3 +184,77 @@ def unshipped_modules(p: Program) -> Set[str]:
                     if q in p.modules and q not in seen:
                         work.append(q)
     return set(p.modules) - seen
+
+
+# ---------------------------------------------------------------------- error table (shared R3.5 / R5.6)
+EXIT_CODES_SPEC = {10: "completeness", 11: "verification failed", 12: "directory verification failed", 20: "single file not found", 21: "new files found", 30: "no history", 31: "modified manifest", 32: "no chain", 33: "missing manifest"}
+
+
+def exit_code_classes(p: Program) -> Dict[str, int]:
+    """ClickException subclasses of the package with a constant exit_code"""
+    out = {}
+    for cq, c in p.classes.items():
+        if not any(b.endswith("ClickException") for b in p.ext_bases(cq)):
+            continue
+        for k in p.mro(cq):
+            code = None
+            for s in p.classes[k].node.body:
+                if isinstance(s, ast.Assign) and any(isinstance(t, ast.Name) and t.id == "exit_code" for t in s.targets):
+                    code = p.fold(s.value, None, p.classes[k].module)
+            if code is not None:
+                out[cq] = code
+                break
+    return out
+
+
+def class_with_code(p: Program, code: int) -> str:
+    hits = [cq for cq, c in exit_code_classes(p).items() if c == code]
+    if len(hits) != 1:
+        raise AnalysisError(f"expected exactly one ClickException subclass with exit_code {code}, found {hits}")
+    return hits[0]
+
+
+def raised_class(p: Program, f: Func, raise_stmt: ast.Raise) -> Optional[str]:
+    """class qual raised by `raise X(...)` / `raise X` / `raise var` (var assigned from constructor calls)"""
+    e = raise_stmt.exc
+    if e is None:
+        return None
+    if isinstance(e, ast.Call):
+        e = e.func
+    q = p.resolve_name_expr(e, f.module)
+    if q in p.classes:
+        return q
+    return None
+
+
+def loop_iteration_paths(g, loop):
+    """paths of one iteration of `loop` (cfg node): list of (end, conds, trail) with end in
+    'back' | 'exit' | 'raise' | 'out' (left the loop by break/else)"""
+    body_ids = g.loop_body_ids(loop)
+    starts = [(m, l, []) for m, l in loop.succ if l == "iter"] if isinstance(loop.ast, ast.For) else [(m, l, []) for m, l in loop.succ]
+    stop = {loop.id} | {n.id for n in g.nodes if n.id not in body_ids and n.kind not in ("exit", "raise")}
+    res = []
+    for end, conds, trail in g.paths(starts, stop):
+        if end is loop:
+            kind = "back"
+        elif end.kind == "exit":
+            kind = "exit"
+        elif end.kind == "raise":
+            kind = "raise"
+        else:
+            kind = "out"
+        res.append((kind, conds, trail))
+    return res
+
+
+def is_plain_iter(p: Program, it) -> bool:
+    """iterable is the bare collection: no slice, reversed(), sorted(), filter, comprehension"""
+    if isinstance(it, ast.Subscript):
+        return False
+    if isinstance(it, ast.Call):
+        nm = norm(it.func)
+        if nm in ("reversed", "sorted", "filter", "list", "iter", "enumerate", "zip", "itertools.islice", "islice", "map"):
+            return False
+    if isinstance(it, (ast.ListComp, ast.GeneratorExp, ast.SetComp)):
+        return False
+    return True
